@@ -14,11 +14,42 @@ pub enum Kind {
     Str,
     OptArr,
     ArrStr,
+    /// option<int>: an enum object with a scalar payload
+    OptInt,
+    /// a variant without payload
+    EnumPlain,
+    /// a variant of an enum with 300 variants, index 250..299 (does not fit a byte)
+    BigEnum,
+    /// struct whose fields are an option<int> and a payload-less variant (scalar-payload enum objects inside a copied aggregate)
+    RecOpt,
 }
 
-pub const KINDS: [Kind; 8] = [Kind::ArrInt, Kind::ArrArr, Kind::Struct, Kind::Tuple, Kind::EnumPayload, Kind::Str, Kind::OptArr, Kind::ArrStr];
+pub const KINDS: [Kind; 12] = [Kind::ArrInt, Kind::ArrArr, Kind::Struct, Kind::Tuple, Kind::EnumPayload, Kind::Str, Kind::OptArr, Kind::ArrStr, Kind::OptInt, Kind::EnumPlain, Kind::BigEnum, Kind::RecOpt];
 
 pub const DECLS: &str = "type Rec = {\n  x: int\n  arr: array<int>\n}\n\ntype Bx =\n  | Fu(array<int>)\n  | Em\n\n";
+
+pub const BIG_VARIANTS: i64 = 300;
+
+/// declarations for programs using values of `kind` (the 300-variant enum only where it is used)
+pub fn decls_for(kind: Kind) -> String {
+    let mut s = String::from(DECLS);
+    match kind {
+        Kind::BigEnum => {
+            s.push_str("type Big =\n");
+            for i in 0..BIG_VARIANTS {
+                s.push_str(&format!("  | Gx{i}\n"));
+            }
+            s.push_str("\nfn big_ix(b: Big) -> int {\n  match b {\n");
+            for i in 0..BIG_VARIANTS {
+                s.push_str(&format!("    .Gx{i} -> {i}\n"));
+            }
+            s.push_str("  }\n}\n\n");
+        }
+        Kind::RecOpt => s.push_str("type Ro = {\n  o: option<int>\n  e: Bx\n  n: int\n}\n\n"),
+        _ => {}
+    }
+    s
+}
 
 /// the harness-side model of one value
 #[derive(Clone, Debug, PartialEq, Serialize, Deserialize)]
@@ -48,6 +79,10 @@ impl Mv {
             Kind::Str => "string",
             Kind::OptArr => "option<array<int>>",
             Kind::ArrStr => "array<string>",
+            Kind::OptInt => "option<int>",
+            Kind::EnumPlain => "Bx",
+            Kind::BigEnum => "Big",
+            Kind::RecOpt => "Ro",
         }
     }
 
@@ -67,7 +102,24 @@ impl Mv {
             Kind::Str => format!("{} .. \"#\"", crate::g::values::str_lit(&self.s)),
             Kind::OptArr => format!("option.some({a})"),
             Kind::ArrStr => format!("[{}]", self.ints.iter().map(|n| format!("\"s{n}\" .. \"\"")).chain(std::iter::once(format!("{} .. \"\"", crate::g::values::str_lit(&self.s)))).collect::<Vec<_>>().join(", ")),
+            Kind::OptInt => format!("option.some({})", self.scalar_lit()),
+            Kind::EnumPlain => "Bx.Em".to_string(),
+            Kind::BigEnum => format!("Big.Gx{}", self.big_ix()),
+            Kind::RecOpt => format!("Ro(option.some({}), Bx.Em, {})", self.scalar_lit(), self.x),
         }
+    }
+
+    fn scalar(&self) -> i64 {
+        self.ints.first().copied().unwrap_or(7)
+    }
+
+    fn scalar_lit(&self) -> String {
+        let n = self.scalar();
+        if n < 0 { format!("({n})") } else { n.to_string() }
+    }
+
+    fn big_ix(&self) -> i64 {
+        250 + (self.scalar() + self.x).rem_euclid(BIG_VARIANTS - 250)
     }
 
     /// string expression rendering variable `v`
@@ -78,6 +130,10 @@ impl Mv {
             Kind::Tuple => format!("\"\" .. {v}"),
             Kind::EnumPayload => format!("match {v} {{\n    .Fu(a) -> \"Fu\" .. a\n    .Em -> \"Em\"\n  }}"),
             Kind::OptArr => format!("match {v} {{\n    .some(a) -> \"some\" .. a\n    .none -> \"none\"\n  }}"),
+            Kind::OptInt => format!("match {v} {{\n    .some(n) -> \"some\" .. n\n    .none -> \"none\"\n  }}"),
+            Kind::EnumPlain => format!("match {v} {{\n    .Fu(a) -> \"Fu\" .. a\n    .Em -> \"Em\"\n  }}"),
+            Kind::BigEnum => format!("\"G\" .. big_ix({v})"),
+            Kind::RecOpt => format!("match {v}.o {{\n    .some(n) -> \"some\" .. n\n    .none -> \"none\"\n  }} .. match {v}.e {{\n    .Fu(a) -> \"Fu\" .. a\n    .Em -> \"Em\"\n  }} .. {v}.n"),
         }
     }
 
@@ -92,11 +148,15 @@ impl Mv {
             Kind::Str => format!("{}#", self.s),
             Kind::OptArr => format!("some{}", arr(&self.ints)),
             Kind::ArrStr => format!("[ {} ]", self.ints.iter().map(|n| format!("s{n}")).chain(std::iter::once(self.s.clone())).collect::<Vec<_>>().join(", ")),
+            Kind::OptInt => format!("some{}", self.scalar()),
+            Kind::EnumPlain => "Em".to_string(),
+            Kind::BigEnum => format!("G{}", self.big_ix()),
+            Kind::RecOpt => format!("some{}Em{}", self.scalar(), self.x),
         }
     }
 
     pub fn mutable(&self) -> bool {
-        !matches!(self.kind, Kind::Str)
+        !matches!(self.kind, Kind::Str | Kind::OptInt | Kind::EnumPlain | Kind::BigEnum)
     }
 
     /// statements mutating variable `v` in place with value `n`, and the same change on the model
@@ -133,7 +193,11 @@ impl Mv {
                 self.s = format!("{}+{n}", self.s);
                 format!("{ind}{v}[{v}.len() - 1] = {v}[{v}.len() - 1] .. \"+{n}\"\n")
             }
-            Kind::Str => String::new(),
+            Kind::Str | Kind::OptInt | Kind::EnumPlain | Kind::BigEnum => String::new(),
+            Kind::RecOpt => {
+                self.x = n;
+                format!("{ind}{v}.n = {nl}\n")
+            }
         }
     }
 }
